@@ -40,7 +40,7 @@ Fixpoint to_prim (e : expr) : prim :=
 (* the surface syntax of render(e) *)
 Definition to_or (e : expr) : orx :=
   match e with
-  | Lit a => O1 (A1 (match a with With _ _ => PA a i0 | Plain _ => PA a i0 end))
+  | Lit a => O1 (A1 (atom_prim a))
   | And xs => O1 (list_and (map to_prim xs))
   | Or xs => list_or (map to_prim xs)
   end.
@@ -84,7 +84,7 @@ Qed.
 Lemma tree_to_or e : wf e = true -> tree_or (to_or e) = e.
 Proof.
   intro W. destruct e as [a|xs|xs].
-  - destruct a; reflexivity.
+  - destruct a; unfold to_or, atom_prim; [reflexivity|]. destruct wrap_with; reflexivity.
   - pose proof (tree_to_prim (And xs) W) as H. cbn [to_prim tree_prim trees_or] in H. exact H.
   - pose proof (tree_to_prim (Or xs) W) as H. cbn [to_prim tree_prim] in H. exact H.
 Qed.
